@@ -43,7 +43,11 @@ type Case struct {
 	Change    string `json:"change"` // addfield | tagfield | tagmarker | alterfield (NewSpec = a v2 variant of the v1 field that alters an existing column)
 	NewSpec   string `json:"added_field_kind,omitempty"`
 	NewTag    string `json:"added_tags"`
-	Readable  string `json:"readable,omitempty"`
+	// Flags: migration-relevant gorm.Config flags: "" | "nofk"
+	// (DisableForeignKeyConstraintWhenMigrating) | "norel"
+	// (IgnoreRelationshipsWhenMigrating) | "nofk+norel"
+	Flags    string `json:"config_flags,omitempty"`
+	Readable string `json:"readable,omitempty"`
 }
 
 func (c Case) String() string {
@@ -62,7 +66,11 @@ func (c Case) String() string {
 	case "alterfield":
 		ch = "the field becomes " + c.NewSpec
 	}
-	return fmt.Sprintf("v1=%s(marker[%s], %s) v2=v1 + %s", c.Key, c.MarkerTag, f, ch)
+	fl := ""
+	if c.Flags != "" {
+		fl = " config=" + c.Flags
+	}
+	return fmt.Sprintf("v1=%s(marker[%s], %s) v2=v1 + %s%s", c.Key, c.MarkerTag, f, ch, fl)
 }
 
 func joinTags(a, b string) string {
@@ -167,36 +175,68 @@ func hasPlainUnique(tag string) bool {
 // ---------------------------------------------------------------------------
 
 type worker struct {
-	env  *h.Env
+	envs map[string]*h.Env // per config-flag combination
 	used int
+	cur  string
 }
 
-func (w *worker) fresh() *h.Env {
+func config(flags string) *gorm.Config {
+	return &gorm.Config{
+		NamingStrategy:                           tg.Namer{},
+		DisableForeignKeyConstraintWhenMigrating: strings.Contains(flags, "nofk"),
+		IgnoreRelationshipsWhenMigrating:         strings.Contains(flags, "norel"),
+	}
+}
+
+func (w *worker) fresh(flags string) *h.Env {
 	// a gorm.DB caches one parsed schema per model type; every history has its
 	// own types, so start over regularly to keep memory bounded
 	if w.used++; w.used%100 == 0 {
-		w.discard()
+		for k := range w.envs {
+			w.envs[k].Close()
+		}
+		w.envs = nil
 	}
-	if w.env == nil {
-		w.env = h.Open(&gorm.Config{})
+	if w.envs == nil {
+		w.envs = map[string]*h.Env{}
 	}
-	e := w.env
-	e.Rec.Pause()
-	e.SQL.Exec("DROP TABLE IF EXISTS `" + table + "__temp`")
-	_, err := e.SQL.Exec("DROP TABLE IF EXISTS `" + table + "`")
-	e.Rec.Resume()
-	if err != nil {
-		w.env.Close()
-		w.env = h.Open(&gorm.Config{})
+	w.cur = flags
+	for try := 0; ; try++ {
+		e := w.envs[flags]
+		if e == nil {
+			e = h.Open(config(flags))
+			w.envs[flags] = e
+		}
+		e.Rec.Pause()
+		e.SQL.Exec("DROP TABLE IF EXISTS `" + table + "__temp`")
+		e.SQL.Exec("DROP TABLE IF EXISTS `owners`")
+		_, err := e.SQL.Exec("DROP TABLE IF EXISTS `" + table + "`")
+		e.Rec.Resume()
+		if err == nil || try > 0 {
+			return e
+		}
+		e.Close()
+		delete(w.envs, flags)
 	}
-	return w.env
 }
 
+// discard drops the env of the current history.
 func (w *worker) discard() {
-	if w.env != nil {
-		w.env.Close()
-		w.env = nil
+	if e := w.envs[w.cur]; e != nil {
+		e.Close()
+		delete(w.envs, w.cur)
 	}
+}
+
+// tdb: the handle through which the model is used. StructOf types have no
+// name: plain models go through db.Table(name); models with a relation
+// cannot (AutoMigrate would migrate the related model into the same table)
+// and rely on the config's typegram.Namer instead.
+func tdb(e *h.Env, m *tg.Model) *gorm.DB {
+	if m.Key.Relation {
+		return e.DB
+	}
+	return e.DB.Table(table)
 }
 
 func catch(msg *string, f func()) {
@@ -224,12 +264,13 @@ func ddlOf(e *h.Env) []string {
 }
 
 func migrate(e *h.Env, m *tg.Model) (err error, panicMsg string) {
-	catch(&panicMsg, func() { err = e.DB.Table(table).AutoMigrate(m.New().Interface()) })
+	catch(&panicMsg, func() { err = tdb(e, m).AutoMigrate(m.New().Interface()) })
 	return
 }
 
 func cols(m *tg.Model) []string {
 	out := append([]string{}, m.Key.Cols...)
+	out = append(out, m.Key.ExtraCols...)
 	out = append(out, tg.MarkerCol)
 	for s, sp := range m.Specs {
 		out = append(out, sp.Cols(s)...)
@@ -333,6 +374,103 @@ func ghosts(e *h.Env, m *tg.Model) []string {
 		}
 	}
 	return out
+}
+
+// declared lists (column, tag part) for everything the model declares on its
+// single-column field of slot 0.., and on Marker.
+type decl struct{ col, tag string }
+
+func declaredOf(m *tg.Model, markerTag string) []decl {
+	var out []decl
+	add := func(col, tags string) {
+		for _, p := range strings.Split(tags, ";") {
+			if p = strings.TrimSpace(p); p != "" {
+				out = append(out, decl{col, p})
+			}
+		}
+	}
+	add(tg.MarkerCol, markerTag)
+	for s, sp := range m.Specs {
+		if cs := sp.Cols(s); len(cs) == 1 && s < len(m.Extra) {
+			add(cs[0], m.Extra[s])
+		}
+	}
+	return out
+}
+
+// checkDeclared verifies that every index / unique / uniqueIndex / check the
+// model declares exists (PRAGMA) and, when rows are present (enforce), is
+// enforced: giving row m1 the value of row m0 in a unique column must fail,
+// an UPDATE to the text a check forbids must fail.
+func checkDeclared(e *h.Env, ds []decl, enforce bool, fail func(kind, detail string)) {
+	for _, d := range ds {
+		lp := strings.ToLower(d.tag)
+		switch {
+		case lp == "index" || strings.HasPrefix(lp, "index:"):
+			if !hasIndexOn(e, d.col, false) {
+				fail("index declared by the model is missing after AutoMigrate", "column "+d.col)
+			}
+		case lp == "uniqueindex" || lp == "unique" || strings.HasPrefix(lp, "uniqueindex:"):
+			if !hasIndexOn(e, d.col, true) {
+				fail("unique index/constraint declared by the model is missing after AutoMigrate", "column "+d.col)
+			} else if enforce && atomic.AddInt64(&nvUniqueProbes, 1) > 0 && !duplicateRejected(e, d.col) {
+				fail("unique index/constraint declared by the model does not reject a duplicate", "column "+d.col)
+			}
+		case strings.HasPrefix(lp, "check:"):
+			if enforce {
+				forbidden := d.tag[strings.LastIndex(d.tag, "'")-2 : strings.LastIndex(d.tag, "'")]
+				if !checkEnforced(e, forbidden) {
+					fail("check constraint declared by the model is not enforced after AutoMigrate", d.tag)
+				}
+			}
+		}
+	}
+}
+
+// duplicateRejected: copying the (non-NULL) value of row m0 into row m1 must
+// fail with a constraint error; true also when the probe is not applicable
+// (fewer than two rows, NULL value).
+func duplicateRejected(e *h.Env, col string) bool {
+	e.Rec.Pause()
+	defer e.Rec.Resume()
+	var n int
+	if err := e.SQL.QueryRow("SELECT count(*) FROM `" + table + "` WHERE `marker` IN ('m0','m1') AND `" + col + "` IS NOT NULL").Scan(&n); err != nil || n < 2 {
+		return true
+	}
+	_, err := e.SQL.Exec("UPDATE `" + table + "` SET `" + col + "` = (SELECT `" + col + "` FROM `" + table + "` WHERE `marker` = 'm0') WHERE `marker` = 'm1'")
+	return err != nil && strings.Contains(strings.ToLower(err.Error()), "constraint")
+}
+
+// non-vacuity counters of the declared-constraint and foreign-key checks
+var nvFKPresent, nvFKAbsent, nvUniqueProbes, nvFlagged int64
+
+// foreignKeys: number of foreign key constraints of the table.
+func foreignKeys(e *h.Env) int {
+	e.Rec.Pause()
+	defer e.Rec.Resume()
+	var n int
+	e.SQL.QueryRow("SELECT count(*) FROM pragma_foreign_key_list('" + table + "')").Scan(&n)
+	return n
+}
+
+// checkFK: a model with a belongs-to relation has its foreign key constraint
+// iff neither config flag is set.
+func checkFK(e *h.Env, m *tg.Model, flags string, fail func(kind, detail string)) {
+	if !m.Key.Relation {
+		return
+	}
+	n := foreignKeys(e)
+	if flags == "" {
+		atomic.AddInt64(&nvFKPresent, 1)
+	} else {
+		atomic.AddInt64(&nvFKAbsent, 1)
+	}
+	if flags == "" && n == 0 {
+		fail("foreign key constraint of the belongs-to relation is missing after AutoMigrate", "")
+	}
+	if flags != "" && n != 0 {
+		fail("foreign key constraint created although the config disables it", flags)
+	}
 }
 
 type indexInfo struct {
@@ -479,7 +617,10 @@ func (ck *checker) check(w *worker, c Case) {
 		ck.histAdd(strings.Join(tl, "+") + " | " + step + ": " + kind)
 		ck.run.Violation(tl, fmt.Sprintf("%s: %s\n%s\n%s", step, kind, c.String(), detail), c)
 	}
-	e := w.fresh()
+	e := w.fresh(c.Flags)
+	if c.Flags != "" {
+		atomic.AddInt64(&nvFlagged, 1)
+	}
 	if ck.verbose {
 		fmt.Println("case:", c.String())
 	}
@@ -510,6 +651,9 @@ func (ck *checker) check(w *worker, c Case) {
 	if g := ghosts(e, v1); len(g) > 0 {
 		fail("migrate-v1", "a column excluded from migration was created", fmt.Sprint(g))
 	}
+	declV1 := declaredOf(v1, c.MarkerTag)
+	checkDeclared(e, declV1, false, func(k, d string) { fail("declared-v1", k, d) })
+	checkFK(e, v1, c.Flags, func(k, d string) { fail("declared-v1", k, d) })
 
 	// 2. insert rows of v1
 	uniq0 := len(v1.Specs) == 1 && (hasUnique(c.Extra) || (c.Change == "tagfield" && hasUnique(c.NewTag)))
@@ -543,7 +687,7 @@ func (ck *checker) check(w *worker, c Case) {
 		}
 		var p string
 		var err error
-		catch(&p, func() { err = e.DB.Table(table).Create(pr.Interface()).Error })
+		catch(&p, func() { err = tdb(e, v1).Create(pr.Interface()).Error })
 		if err != nil || p != "" {
 			fail("insert-v1", "Create of a v1 row failed", fmt.Sprintf("row %d: err=%v panic=%q", i, err, p))
 			w.discard()
@@ -553,6 +697,11 @@ func (ck *checker) check(w *worker, c Case) {
 	before := dumpCols(e, v1cols)
 	if len(before) != nrows {
 		fail("insert-v1", "wrong number of rows stored", fmt.Sprintf("%d, want %d", len(before), nrows))
+		return
+	}
+	checkDeclared(e, declV1, true, func(k, d string) { fail("declared-v1", k, d) })
+	if after := dumpCols(e, v1cols); strings.Join(after, "\n") != strings.Join(before, "\n") {
+		fail("declared-v1", "a constraint declared by the model did not stop a violating UPDATE", fmt.Sprintf("before:\n%s\nafter:\n%s", strings.Join(before, "\n"), strings.Join(after, "\n")))
 		return
 	}
 
@@ -614,6 +763,9 @@ func (ck *checker) check(w *worker, c Case) {
 		fail("migrate-v2", "existing rows not preserved on the common columns", fmt.Sprintf("before:\n%s\nafter:\n%s", strings.Join(before, "\n"), strings.Join(after, "\n")))
 		return
 	}
+	// what v1 declared is still there, the foreign key follows the config
+	checkDeclared(e, declV1, true, func(k, d string) { fail("declared-after-v2", k, d) })
+	checkFK(e, v2, c.Flags, func(k, d string) { fail("declared-after-v2", k, d) })
 	// what was added is present
 	{
 		col := tg.MarkerCol
@@ -668,7 +820,7 @@ func (ck *checker) check(w *worker, c Case) {
 		p := v2.New()
 		var pm string
 		var err error
-		catch(&pm, func() { err = e.DB.Table(table).First(p.Interface(), "marker = ?", marker(i)).Error })
+		catch(&pm, func() { err = tdb(e, v2).First(p.Interface(), "marker = ?", marker(i)).Error })
 		if err != nil || pm != "" {
 			fail("read-old", "First of an existing row into the v2 model failed", fmt.Sprintf("err=%v panic=%q", err, pm))
 			continue
@@ -678,7 +830,7 @@ func (ck *checker) check(w *worker, c Case) {
 			fn := sp.GoFieldName(0)
 			// the value must be what a v1 read gives
 			q := v1.New()
-			if err := e.DB.Table(table).First(q.Interface(), "marker = ?", marker(i)).Error; err != nil {
+			if err := tdb(e, v1).First(q.Interface(), "marker = ?", marker(i)).Error; err != nil {
 				fail("read-old", "First of an existing row into the v1 model failed", err.Error())
 				continue
 			}
@@ -750,7 +902,7 @@ func (ck *checker) check(w *worker, c Case) {
 		lo := atomic.LoadInt64(e.Clock)
 		var pm string
 		var err error
-		catch(&pm, func() { err = e.DB.Table(table).Create(p.Interface()).Error })
+		catch(&pm, func() { err = tdb(e, v2).Create(p.Interface()).Error })
 		hi := atomic.LoadInt64(e.Clock)
 		if err != nil || pm != "" {
 			fail("insert-v2", "the migrated table does not accept a record of the new model", fmt.Sprintf("values %v: err=%v panic=%q", labels, err, pm))
@@ -762,7 +914,7 @@ func (ck *checker) check(w *worker, c Case) {
 		}
 		atomic.AddInt64(&ck.st.v2records, 1)
 		q := v2.New()
-		catch(&pm, func() { err = e.DB.Table(table).First(q.Interface(), "marker = ?", marker(idx)).Error })
+		catch(&pm, func() { err = tdb(e, v2).First(q.Interface(), "marker = ?", marker(idx)).Error })
 		if err != nil || pm != "" {
 			fail("read-v2", "First of a v2 record failed", fmt.Sprintf("err=%v panic=%q", err, pm))
 			continue
@@ -941,11 +1093,18 @@ func usable(sp *tg.Spec, added bool) bool {
 	return true
 }
 
+// flagCombos: the non-default combinations of the migration-relevant config flags.
+var flagCombos = []string{"nofk", "norel", "nofk+norel"}
+
+// sliceKinds: the representative kinds of the quick tier's config-flag and
+// relation slice.
+var sliceKinds = map[string]bool{"int64": true, "string": true, "time": true, "default_string": true}
+
 func enumerate(thorough bool) []Case {
 	var out []Case
 	seen := map[string]bool{}
 	add := func(c Case) {
-		k := fmt.Sprintf("%s|%s|%s|%s|%s|%s|%s", c.Key, c.Spec, c.Extra, c.MarkerTag, c.Change, c.NewSpec, c.NewTag)
+		k := fmt.Sprintf("%s|%s|%s|%s|%s|%s|%s|%s", c.Key, c.Spec, c.Extra, c.MarkerTag, c.Change, c.NewSpec, c.NewTag, c.Flags)
 		if !seen[k] {
 			seen[k] = true
 			out = append(out, c)
@@ -954,16 +1113,19 @@ func enumerate(thorough bool) []Case {
 	refAdded := []string{"int64", "string"}
 	type v1f struct{ spec, extra, marker string }
 	refV1 := []v1f{{"", "", ""}, {"", "", "uniqueIndex"}, {"int64", "", ""}, {"string", "index", ""}, {"default_string", "not null", ""}, {"time", "unique", ""}}
-	for ki := range tg.Keys {
-		key := tg.Keys[ki].Name
+
+	// sweeps enumerates sweep A and sweep B for one key configuration and one
+	// flag combination; kinds restricts the v1 kinds of sweep A, product makes
+	// sweep A the full v1 x added-field product, sweepB switches sweep B on.
+	sweeps := func(key, flags string, kinds func(*tg.Spec) bool, product, sweepB bool) {
 		// sweep A: every v1 (kind x tag variant) x changes to the existing
 		// columns + two reference added fields
 		for _, sp := range tg.Specs {
-			if !usable(sp, false) {
+			if !usable(sp, false) || !kinds(sp) {
 				continue
 			}
 			for _, extra := range fieldTagVariants(sp) {
-				base := Case{Key: key, Spec: sp.Name, Extra: extra}
+				base := Case{Key: key, Spec: sp.Name, Extra: extra, Flags: flags}
 				for _, t := range tagChanges(sp, extra) {
 					c := base
 					c.Change, c.NewTag = "tagfield", t
@@ -979,7 +1141,7 @@ func enumerate(thorough bool) []Case {
 					c.Change, c.NewSpec = "alterfield", alt.Name
 					add(c)
 				}
-				if thorough {
+				if product {
 					for _, ns := range tg.Specs {
 						if conflict(sp, ns) || !usable(ns, true) {
 							continue
@@ -999,9 +1161,12 @@ func enumerate(thorough bool) []Case {
 				}
 			}
 		}
+		if !sweepB {
+			return
+		}
 		// sweep B: reference v1 types x every added field kind x tag variant
 		for _, r := range refV1 {
-			base := Case{Key: key, Spec: r.spec, Extra: r.extra, MarkerTag: r.marker}
+			base := Case{Key: key, Spec: r.spec, Extra: r.extra, MarkerTag: r.marker, Flags: flags}
 			for _, ns := range tg.Specs {
 				if (r.spec != "" && conflict(tg.SpecByName(r.spec), ns)) || !usable(ns, true) {
 					continue
@@ -1020,6 +1185,40 @@ func enumerate(thorough bool) []Case {
 				c.Change, c.NewTag = "tagmarker", t
 				add(c)
 			}
+		}
+	}
+	all := func(*tg.Spec) bool { return true }
+	slice := func(sp *tg.Spec) bool { return sliceKinds[sp.Name] }
+	rel := tg.RelKeys[0].Name
+
+	// default config: all plain key configurations (in thorough the large
+	// product comes last so that an internal deadline cuts there)
+	if !thorough {
+		for ki := range tg.Keys {
+			sweeps(tg.Keys[ki].Name, "", all, false, true)
+		}
+	}
+	if thorough {
+		// the relation model and every non-default flag combination: complete
+		// sweeps A and B over every kind, for every key configuration
+		sweeps(rel, "", all, false, true)
+		for _, fl := range flagCombos {
+			for ki := range tg.Keys {
+				sweeps(tg.Keys[ki].Name, fl, all, false, true)
+			}
+			sweeps(rel, fl, all, false, true)
+		}
+		for ki := range tg.Keys {
+			sweeps(tg.Keys[ki].Name, "", all, true, true)
+		}
+	} else {
+		// quick: the representative slice (every tag variant x a few kinds x
+		// every change of sweep A) for the relation model and for each flag
+		// combination on a plain and on the relation model
+		sweeps(rel, "", slice, false, false)
+		for _, fl := range flagCombos {
+			sweeps("autoid", fl, slice, false, false)
+			sweeps(rel, fl, slice, false, false)
 		}
 	}
 	return out
@@ -1082,6 +1281,9 @@ func main() {
 		if st.ignoredFieldHistories < 50 {
 			run.HarnessError("vacuous: only %d histories with a field excluded from migration", st.ignoredFieldHistories)
 		}
+		if nvFKPresent < 20 || nvFKAbsent < 20 || nvFlagged < 100 || nvUniqueProbes < 100 {
+			run.HarnessError("vacuous: fk-present checks %d, fk-absent checks %d, histories with a non-default config %d, unique enforcement probes %d", nvFKPresent, nvFKAbsent, nvFlagged, nvUniqueProbes)
+		}
 		if ck.outcomes.Len() < 4 {
 			run.HarnessError("vacuous: only %d distinct migration outcomes", ck.outcomes.Len())
 		}
@@ -1095,11 +1297,15 @@ func main() {
 	run.Finish(map[string]interface{}{
 		"evaluations":                           st.histories,
 		"distinct_nontrivial":                   ck.distinct.Len(),
-		"rule":                                  "histories migrate(v1) -> insert rows -> migrate(v1) -> migrate(v2) -> read old rows, insert+read v2 records (one per catalogue value of the added kind) -> migrate(v2); v1 = key configuration (4) x field kind x tag variant; quick: sweep A = every v1 x {tags added to the field, tags added to Marker, every v2 variant of the field that alters an existing column (default added; for the twice-embedded struct on the first, the second or both twins), two reference added fields}, sweep B = 6 reference v1 x every added field kind x tag variant; thorough: every v1 x every added kind x tag variant. distinct_nontrivial = distinct histories that ran to the end with every oracle step evaluated and no violation",
+		"rule":                                  "histories migrate(v1) -> insert rows -> migrate(v1) -> migrate(v2) -> read old rows, insert+read v2 records (one per catalogue value of the added kind) -> migrate(v2); v1 = key configuration (4) x field kind x tag variant; quick: sweep A = every v1 x {tags added to the field, tags added to Marker, every v2 variant of the field that alters an existing column (default added; for the twice-embedded struct on the first, the second or both twins), two reference added fields}, sweep B = 6 reference v1 x every added field kind x tag variant; thorough: every v1 x every added kind x tag variant with the default config, plus complete sweeps A and B over every kind for the belongs-to model and for each non-default combination of DisableForeignKeyConstraintWhenMigrating / IgnoreRelationshipsWhenMigrating on all 5 key configurations; quick covers the flag combinations and the belongs-to model on a slice (every tag variant x 4 kinds x every sweep-A change). distinct_nontrivial = distinct histories that ran to the end with every oracle step evaluated and no violation",
 		"samples":                               ck.samples.List(),
 		"exhaustive":                            atomic.LoadInt32(&timedOut) == 0,
 		"histories_altering_an_existing_column": st.alterHistories,
-		"of_which_migrate_v2_issued_ddl":        st.alterWithDDL,
+		"histories_with_non_default_config_flags":              nvFlagged,
+		"foreign_key_present_checks_default_config":            nvFKPresent,
+		"foreign_key_absent_checks_flagged_config":             nvFKAbsent,
+		"unique_enforcement_probes":                            nvUniqueProbes,
+		"of_which_migrate_v2_issued_ddl":                       st.alterWithDDL,
 		"histories_with_field_excluded_from_migration":         st.ignoredFieldHistories,
 		"histories_completed":                                  st.completed,
 		"idempotence_checks":                                   st.idempotentChecks,
